@@ -385,6 +385,12 @@ def dstep (d : DState) (ws : List String) : DState × String :=
     match mark.toInt?, pairsOf ts with
     | some mark, some ts => ({}, texRun mark ts act)
     | _, _ => (d, "bad-op")
+  | ["tex", mark, ts, act, q] =>
+    -- `q:free:step`: the torrents' event queues are full while the passes run.  The passes
+    -- block in Have until there is room, so the outcome is that of the undisturbed run.
+    match mark.toInt?, pairsOf ts, q.startsWith "q:" with
+    | some mark, some ts, true => ({}, texRun mark ts act)
+    | _, _, _ => (d, "bad-op")
   | ["end"] =>
     (d, " / ".intercalate (d.stores.map (fun e => s!"S{e.1} " ++ snapStr d e.1 none)))
   | t :: "call" :: sid :: args =>
